@@ -78,6 +78,7 @@ inductive FsOp
   | close               -- f.Close()
   | renameTmpToTarget   -- os.Rename(tmp, path): atomic replacement of the directory entry
   | removeTmp           -- os.Remove(tmp)
+  | renameTargetAway    -- os.Rename(path, path+".bak") with ENOENT ignored: the store path no longer exists afterwards
 deriving DecidableEq, Repr
 
 /-- when a call is made, relative to the function's `err` variable -/
@@ -117,6 +118,19 @@ def progExclTmp : List Stmt :=
    .op .ifOk true .chmod,
    .op .ifOk true .sync,
    .op .always true .close,
+   .op .ifOk true .renameTmpToTarget,
+   .op .ifErr false .removeTmp, .retIfErr]
+
+/-- the temp-file program with a "keep a backup" step: the store path is renamed away just before the
+temporary file is renamed onto it -/
+def progBackupRename : List Stmt :=
+  [.op .always false .statTarget,
+   .op .always true .createTemp, .retIfErr,
+   .op .always true .write,
+   .op .ifOk true .chmod,
+   .op .ifOk true .sync,
+   .op .always true .close,
+   .op .ifOk true .renameTargetAway,
    .op .ifOk true .renameTmpToTarget,
    .op .ifErr false .removeTmp, .retIfErr]
 
@@ -173,6 +187,11 @@ def execOk (doc : Bytes) (o : FsOp) (r : Run) : Run :=
                                             tmps := r.fs.tmps.filter (fun p => some p.1 != r.tmp) } }
     | none => r
   | .removeTmp => { r with fs := { r.fs with tmps := r.fs.tmps.filter (fun p => some p.1 != r.tmp) } }
+  | .renameTargetAway =>
+    -- the directory entry (a link too) moves to the backup name, which the model does not track
+    match r.fs.target with
+    | some _ => { r with fs := { r.fs with target := none, thist := none :: r.fs.thist, isLink := false } }
+    | none => r
 
 /-- effect of a call that fails; for `write`, after `k` bytes went through (ENOSPC / EFBIG / EIO).
 `close` releases the descriptor even when it reports an error; the other calls have no effect. -/
@@ -395,7 +414,7 @@ def Guard.ofString? : String → Option Guard
 def FsOp.ofString? : String → Option FsOp
   | "statTarget" => some .statTarget | "openTrunc" => some .openTrunc | "createTemp" => some .createTemp | "createExcl" => some .createExcl
   | "write" => some .write | "chmod" => some .chmod | "sync" => some .sync | "close" => some .close
-  | "renameTmpToTarget" => some .renameTmpToTarget | "removeTmp" => some .removeTmp | _ => none
+  | "renameTmpToTarget" => some .renameTmpToTarget | "renameTargetAway" => some .renameTargetAway | "removeTmp" => some .removeTmp | _ => none
 
 def Stmt.ofStrings? : List String → Option Stmt
   | ["retIfErr"] => some .retIfErr
